@@ -269,8 +269,8 @@ fn c06_check(ctx: &Ctx) -> i32 {
     let complete = agg2.evaluations == n;
     agg.merge(agg2);
     if ctx.replay.is_none() {
-        for (i, sym) in [(0u64, true), (1, false)] {
-            let out = c06::idle_test(crate::evidence::mix(ctx.seed, i, 7), sym);
+        for (i, sym, buffered) in [(0u64, true, false), (1, false, false), (2, true, true), (3, false, true)] {
+            let out = c06::idle_test(crate::evidence::mix(ctx.seed, i, 7), sym, buffered);
             agg.absorb("idle", i, ctx.seed, out, 2);
         }
     }
@@ -279,7 +279,7 @@ fn c06_check(ctx: &Ctx) -> i32 {
     extra.insert("fault_cases_enumerated".into(), serde_json::json!(n));
     let rep = Report {
         level: "fault_enumeration",
-        rule: "fixed chmux workload (handshake, client port, multi-chunk message each way, port sent over a port, message on it, pending accept / closed() / idle recv, optional orderly end); a clean run per (schedule, H1, ending) records F frames per direction; then EVERY (direction, frame index 0..F+1, fault kind in {sink error, stream error, end of stream, black hole both ways, black hole one way}, peer drop visible yes/no) is run. A case is the tuple; all are non-trivial; distinct by the tuple; cases whose fault index lies beyond the frames actually sent are counted separately (faults_not_reached). Plus idle tests (1000 x timeout of virtual idleness, symmetric and asymmetric timeouts).".into(),
+        rule: "fixed chmux workload (handshake, client port, multi-chunk message each way, port sent over a port, message on it, pending accept / closed() / idle recv, optional orderly end); a clean run per (schedule, H1, ending) records F frames per direction; then EVERY (direction, frame index 0..F+1, fault kind in {sink error, stream error, end of stream, black hole both ways, black hole one way, writer stalled for ever (back-pressure)}, peer drop visible yes/no) is run; odd fault positions use a transport that buffers frames until the sink is flushed. A case is the tuple; all are non-trivial; distinct by the tuple; cases whose fault index lies beyond the frames actually sent are counted separately (faults_not_reached). Plus idle tests (1000 x timeout of virtual idleness; symmetric and asymmetric timeouts; plain and buffering transport).".into(),
         explanation: "After the fault: the endpoint that observes it directly must have terminated at the next quiescence (no clock advance needed); after 3x(T_A+T_B) virtual seconds every dispatcher and every API future (tracked operation registry) must have completed; dispatcher errors must be transport classes (never Protocol); received messages must be a prefix of the sent ones; an idle healthy connection must survive 1000 timeouts and still carry a message.".into(),
         assumptions: vec!["timeouts A=10 s, B=60 s (asymmetric) on tokio's paused clock".into(), "fault positions are those of this workload".into()],
         exhaustive: complete,
